@@ -17,6 +17,8 @@ macro "py_eval" : tactic =>
       opFlatten, opLe, opGe, opNeg, opMkDict, opIsTuple, mutate, pyIndexPV, iterOf, dedupPV, sortedPV, containsPV, PV.lookup, PV.beq])
 
 
+@[simp] theorem truthy_bool (x : Bool) : (PV.bool x).truthy = x := rfl
+
 theorem elem_str (x : String) (l : List String) : PV.elem (.str x) (l.map PV.str) = l.contains x := by
   induction l with
   | nil => simp [PV.elem]
